@@ -516,6 +516,34 @@ type c02ColorCase struct {
 	In16  [4]uint16  `json:"in16,omitempty"`
 }
 
+// The floats travel as bit patterns (a NaN alpha or an infinite channel has no JSON number) with a
+// readable rendering next to them.
+func (c c02ColorCase) MarshalJSON() ([]byte, error) {
+	return json.Marshal(map[string]any{
+		"space": c.Space, "entry": c.Entry, "in16": c.In16,
+		"rgb_bits":   [3]uint32{math.Float32bits(c.RGB[0]), math.Float32bits(c.RGB[1]), math.Float32bits(c.RGB[2])},
+		"alpha_bits": math.Float32bits(c.Alpha),
+		"rgb_alpha":  fmt.Sprintf("%v %v", c.RGB, c.Alpha),
+	})
+}
+
+func (c *c02ColorCase) UnmarshalJSON(b []byte) error {
+	var w struct {
+		Space string    `json:"space"`
+		Entry string    `json:"entry"`
+		In16  [4]uint16 `json:"in16"`
+		RGB   [3]uint32 `json:"rgb_bits"`
+		Alpha uint32    `json:"alpha_bits"`
+	}
+	if err := json.Unmarshal(b, &w); err != nil {
+		return err
+	}
+	c.Space, c.Entry, c.In16 = w.Space, w.Entry, w.In16
+	c.RGB = [3]float32{math.Float32frombits(w.RGB[0]), math.Float32frombits(w.RGB[1]), math.Float32frombits(w.RGB[2])}
+	c.Alpha = math.Float32frombits(w.Alpha)
+	return nil
+}
+
 func c02ColorEnc(s *libSpace, bits int) *c02Enc {
 	if bits == 8 {
 		return &c02Enc{s.Name + ".8", 255, 511, s.Ref.Curve.OETF, nil}
